@@ -418,7 +418,8 @@ static inline unsigned long np_moveaxis_at(unsigned long n, const long *S, const
     if (j == k) r = order[j];
   return r;
 }
-/* the repeated-axis part of NumPy's validation alone (every entry in range, some normalised axis listed twice) */
+/* the repeated-axis part of NumPy's validation alone (every entry in range, some normalised axis listed twice); moveaxis_*_repeated below were the
+ * regions of the finding repaired by /repo b20b6ba (kept for reference, no longer excluded) */
 static inline int np_axis_tuple_repeats(const long *a, unsigned long m, unsigned long n)
 {
   int inrange = 1, rep = 0;
